@@ -77,14 +77,19 @@ def main() -> int:
     # layout, re-open - every order (the image part of the removed layout leaves the package and frees its name)
     PNGS = [i + 1 for i, sp in enumerate(_M._SPECS) if sp[0] == "PNG"][:3]
     GC = dict(nslides=1, args=("none",), vias=("stream",), logo=1)
+    # one file path overwritten with one image after the other (two of them BMPs of identical byte length), then added from that path
+    SAME = [i + 1 for i, sp in enumerate(_M._SPECS) if sp[0] == "BMP" and sp[2] == (6, 2)] + [1]
+    SP = dict(nslides=2, args=("none",), vias=("samepath",))
     if thorough:
         cfgs = [("a", 3, ALLI(4), ALL, None, {}), ("b", 2, ALLI(NGEN), ["addPicture", "reopen"], None, {}),
                 ("gc", 5, PNGS + [2], ["addPicture", "removeLayout", "reopen", "save"], None, GC),
+                ("samepath", 4, SAME, ["addPicture", "reopen"], None, SP),
                 ("sim", 8, ALLI(NGEN), ALL + ["removeLayout"], "num=1500", dict(logo=1))]
     else:
         cfgs = [("a", 2, ALLI(3), ALL, None, {}), ("b", 1, ALLI(NGEN), ["addPicture", "insertPicture"], None, {}),
                 ("c", 3, ALLI(2), ["addPicture", "reopen", "addOle", "addMovie"], None, {}),
                 ("gc", 4, PNGS, ["addPicture", "removeLayout", "reopen"], None, GC),
+                ("samepath", 3, SAME, ["addPicture", "reopen"], None, SP),
                 ("sim", 7, ALLI(NGEN), ALL + ["removeLayout"], "num=150", dict(logo=1))]
     jobs, per = [], {}
     states = trans = 0
